@@ -7,7 +7,9 @@ import (
 	"hash/crc32"
 	"math/rand"
 	"net"
+	"os"
 	"runtime"
+	"strings"
 	"sync"
 	"time"
 	"unsafe"
@@ -101,6 +103,34 @@ func (c dropCB) Dropped(m utils.Message) {
 		bp = uintptr(unsafe.Pointer(&m.Payload[0]))
 	}
 	c.t.add(udpEv{kind: 'D', id: id, ok: ok, buf: bp})
+}
+
+// portForeign reports whether a UDP socket that does NOT belong to this process is bound to the port (another
+// process was handed the same ephemeral port by the kernel between two of our binds: checks run side by side,
+// the machine runs other tests). What such a socket causes says nothing about the receiver.
+func portForeign(port int) bool {
+	b, err := os.ReadFile("/proc/net/udp")
+	if err != nil {
+		return false
+	}
+	want := fmt.Sprintf(":%04X", port)
+	inodes := map[string]bool{}
+	for _, l := range strings.Split(string(b), "\n") {
+		f := strings.Fields(l)
+		if len(f) > 9 && strings.HasSuffix(f[1], want) {
+			inodes[f[9]] = true
+		}
+	}
+	if len(inodes) == 0 {
+		return false
+	}
+	ents, _ := os.ReadDir("/proc/self/fd")
+	for _, e := range ents {
+		if t, err := os.Readlink("/proc/self/fd/" + e.Name()); err == nil && strings.HasPrefix(t, "socket:[") {
+			delete(inodes, strings.TrimSuffix(strings.TrimPrefix(t, "socket:["), "]"))
+		}
+	}
+	return len(inodes) > 0
 }
 
 func freePort() int {
@@ -218,6 +248,9 @@ func init() {
 		}()
 		port := freePort()
 		if err := recv.Start("127.0.0.1", port, debug.PanicDecoderWrapper(decode)); err != nil {
+			if portForeign(port) {
+				return "foreignport" // another process was handed the port in between: the run is repeated
+			}
 			return "starterr"
 		}
 		// burst from several source sockets
